@@ -216,6 +216,10 @@ pub fn generate(a: &Args) {
         let mut args = vec![s("ber"), format!("ber{i}.alist"), s("--min-ebn0=-4"), format!("--max-ebn0={}", -4 + (npoints as i64 - 1)), s("--step-ebn0=1"),
             s("--frame-errors"), target.to_string(), s("--max-iter"), s("5"), s("--output-file"), format!("ber{i}.txt")];
         if i % 4 == 2 { args.push(s("--modulation")); args.push(s("PSK8")); }
+        // puncturing / interleaving given on the command line: the printed details must show the sizes after puncturing
+        let cli_pat: Option<&str> = if i % 4 == 3 { Some("1,1,0,1") } else if i % 4 == 1 { Some("1,1,1,1,0,1") } else { None };
+        if let Some(p) = cli_pat { args.push(s("--puncturing")); args.push(s(p)); }
+        if i % 4 == 3 { args.push(s("--interleaving=-3")); }
         if bch > 0 { args.push(s("--bch-max-errors")); args.push(bch.to_string()); args.push(s("--output-file-ldpc")); args.push(format!("ber{i}-ldpc.txt")); }
         let r = run_cli(&work, &args, 120);
         let parse = |path: String| -> Vec<Value> {
@@ -230,6 +234,15 @@ pub fn generate(a: &Args) {
         };
         let mut ev = base_ev(&args, &r);
         ev["npoints"] = json!(npoints); ev["target"] = json!(target); ev["bch"] = json!(bch); ev["k"] = json!(ncw - r0);
+        // the parameter block printed on stdout
+        let so = String::from_utf8_lossy(&r.stdout).to_string();
+        let field = |key: &str| -> f64 { so.lines().find_map(|l| l.trim().strip_prefix(key).and_then(|x| x.trim().parse::<f64>().ok())).unwrap_or(-1.0) };
+        ev["ncw"] = json!(ncw);
+        ev["pat"] = json!(cli_pat.unwrap_or("1").split(',').map(|t| (t == "1") as u8).collect::<Vec<_>>());
+        ev["d_k"] = json!(field("- Information bits (k):") as i64);
+        ev["d_ncw"] = json!(field("- Codeword size (N_cw):") as i64);
+        ev["d_n"] = json!(field("- Frame size (N):") as i64);
+        ev["d_rate_m"] = json!((field("- Code rate:") * 1000.0).round() as i64);
         ev["lines"] = json!(parse(format!("{work}/ber{i}.txt")));
         ev["lines_ldpc"] = json!(if bch > 0 { parse(format!("{work}/ber{i}-ldpc.txt")) } else { vec![] });
         out.ev("Ber", "ok", ev);
